@@ -250,7 +250,7 @@ class Contract:
                  lift=None, note="", abstract=None, result_type=None, search=None, cuts=(),
                  opaque=False, shape=None, ensures=None, transparent=(), assumed=False, memo_transparent=(),
                  on_apply=None, shards=1, native_spec=None, spec_module=None, post=None, call_inline=False,
-                 native_pre=None, native_post=None):
+                 native_pre=None, native_post=None, split_model=None, congruent=False):
         self.qual = qual              # "yarl._parse:split_netloc"
         self.params = params          # list[(name, type)]
         self.spec = spec              # native function object defined in a contracts module
@@ -276,6 +276,8 @@ class Contract:
         self.spec_module = spec_module   # module whose names loop contracts may use when spec is None
         self.post = post              # boolean expression over the locals, ghosts (G_*) and `result` at every return
         self.call_inline = call_inline   # callers execute the body (the function's effect is on its argument's memo)
+        self.congruent = congruent       # opaque applications on equal (not merely identical) strings give equal results
+        self.split_model = split_model   # "plist": str.split lists are modelled at the string level (pyvc/plist.py)
         self.native_pre = native_pre     # engine-level precondition / pre-state capture (ex, st, args) -> pre
         self.native_post = native_post   # engine-level postcondition (ex, st, pre, flow, value, args)
 
@@ -343,6 +345,22 @@ class Contract:
                 st.ctx.add(z3.Implies(z3.Not(raises), et))
             if self.on_apply is not None:
                 self.on_apply(ex, st, self, full, raises, res)
+            if self.congruent and self.shape == STR:
+                # the specification is a function of the argument *values*: an application to an equal
+                # string (built differently) has the same outcome
+                apps = memo.setdefault(("opaque-apps", self.qual), [])
+                for oargs, oraises, ores in apps:
+                    eqs = []
+                    for a, b in zip(oargs, full):
+                        if isinstance(a, VStr) and isinstance(b, VStr):
+                            eqs.append(V.str_eq(st.ctx, a, b))
+                        elif a is b:
+                            continue
+                        else:
+                            eqs.append(z3.BoolVal(False))
+                    st.ctx.add(z3.Implies(z3.And(eqs + [z3.BoolVal(True)]),
+                                          z3.And(oraises == raises, V.str_eq(st.ctx, ores, res))))
+                apps.append((full, raises, res))
         raises, res = ent
         if not self.raises:
             yield res, st
@@ -756,6 +774,11 @@ def verify_contract(contract, registry, combo_filter=None, timeout_ms=10000, rou
             label = label0 if nseg == 1 else f"{label0}|seg{seg}"
             loop_specs = {(contract.qual, k): LoopSpec(src, spec_ms) for k, src in contract.loops.items()}
             ex = Executor(registry, loop_specs)
+            ex.split_model = contract.split_model
+            if contract.split_model == "plist":
+                ex.assumed_contracts.add("str.split / str.join on one-character separators: element count, first/last element, "
+                                         "join(split(s)) == s, join(split(s)[:-1]) + sep == s[:rfind+1], no element contains the "
+                                         "separator (pyvc/plist.py)")
             ex.verifying = contract.qual
             ex.transparent = contract.transparent
             st = St(ex)
